@@ -12,6 +12,8 @@
 (*   ReachDone prob, rstrat   hook after solve_reachability                *)
 (*   Conditioned nodes        hook before the reward phase                 *)
 (*   Return    fstrat, rstrat, rew, prob, aux1, aux2, rep                  *)
+(*   RewardSweep sweep, r, q, p, lens   hook after every reward sweep      *)
+(*               (only in sessions recorded with sweeps on: run.py extra vir)*)
 (*   Raise     etype, cls, msg                                             *)
 (*   Timeout                  the call was killed after its budget         *)
 (*   End                      end of a reachability-only call              *)
@@ -21,7 +23,7 @@
 (* of a session is printed as one JSON line when its events are used up.   *)
 (* Verdicts are total: a failing clause never stops the validation.        *)
 (***************************************************************************)
-EXTENDS Solver, Transform, Json, IOUtils
+EXTENDS Solver, Transform, VIR, Json, IOUtils
 
 Sessions == JsonDeserialize(IOEnv.TRACE_FILE)
 
@@ -122,6 +124,25 @@ TraceCond ==
              THEN RewardOracle(desc, orc, prob, rstrat, prune) ELSE [ok |-> FALSE, stop |-> TRUE]
     /\ UNCHANGED <<desc, orc, prune, prob, rstrat, rew, fstrat, res, hist, mode, dcur, orcs, outs, reached, snaps>>
 
+\* one sweep of the reward iteration (module VIR); the previous sweep is kept in ro.vp
+TraceRewardSweep ==
+    /\ IsEvent("RewardSweep")
+    /\ LET cur  == [r |-> Ev.r, q |-> Ev.q, p |-> Ev.p]
+           has  == "vp" \in DOMAIN ro
+           cont == has /\ ro.vp.sweep + 1 = Ev.sweep /\ Comparable(ro.vp.vec, cur)
+           resid == IF cont THEN Resid(ro.vp.vec, cur) ELSE -1
+       IN  /\ fails' = fails
+                \cup Proto(pc = "conditioned", "RewardSweep")
+                \cup (IF cont /\ pc = "conditioned"
+                      THEN SweepClauses(desc, nodes, prob, Ev.lens, ro.vp.vec, cur) ELSE {})
+                \* the loop sweeps again only while the last change exceeded the threshold
+                \cup (IF cont /\ ro.vp.resid >= 0 /\ ro.vp.resid <= S.eps - 2
+                      THEN {"VIR.SweptAfterConvergence sweep=" \o ToString(Ev.sweep)} ELSE {})
+           /\ ro' = ([vp |-> [sweep |-> Ev.sweep, vec |-> cur, resid |-> resid]] @@ ro)
+           /\ notes' = notes \cup {"VIR.sweep"}
+    /\ UNCHANGED <<desc, orc, pc, prune, nodes, prob, rstrat, rew, fstrat, res, hist,
+                   mode, dcur, orcs, outs, reached, snaps>>
+
 \* outcome bookkeeping shared by Return / Raise / Timeout
 Outcome(o) ==
     LET key == <<dcur, prune>>
@@ -161,6 +182,10 @@ TraceReturn ==
                       ELSE {})
                 \cup SameResult(o)
                 \cup RelClauses(S, dcur, prune, o, outs, orcs)
+                \* (module VIR) the iteration may only stop after a sweep that changed nothing by more
+                \* than the threshold, and what is returned is the vector of the last sweep
+                \cup (IF "vp" \in DOMAIN ro /\ ro.vp.resid > S.eps + 2 THEN {"VIR.StoppedEarly"} ELSE {})
+                \cup (IF "vp" \in DOMAIN ro /\ ro.vp.vec.r # Ev.rew THEN {"VIR.ReturnIsLastSweep"} ELSE {})
            /\ notes' = notes \cup {"C06.returned"}
                 \cup (IF ro.ok THEN {"C02.exact"} ELSE {"C02.skipped"})
                 \cup (IF ro.ok /\ ~ro.acyclic THEN {"C02.cyclic"} ELSE {})
@@ -213,7 +238,7 @@ Verdict ==
 
 TraceNext ==
     \/ TraceSnap \/ TraceCall \/ TraceReach \/ TraceCond
-    \/ TraceReturn \/ TraceRaise \/ TraceTimeout \/ TraceEnd \/ Verdict
+    \/ TraceReturn \/ TraceRaise \/ TraceTimeout \/ TraceEnd \/ TraceRewardSweep \/ Verdict
 
 TraceSpec == TraceInit /\ [][TraceNext]_tvars
 
